@@ -242,3 +242,7 @@ def run(rep):
     cside.lookup_default_c(rep, u, 'R16.5')
     cside.fills_one(rep, u, 'R16.5')
     mutators.value_filter(rep, 'R16.6', amod)
+    # a re-registration under an existing key replaces the stored object unless it
+    # IS that object (the listing is updated by equality-free replacement: an
+    # equal-but-distinct factory must reach the registry as well)
+    mutators.register_same_value(rep, 'R16.6', amod)
